@@ -115,4 +115,44 @@ theorem interp_ge_lastBound : ∀ (xs ys : List ℝ) (B x : ℝ), goodTable xs y
   | _ :: _ :: _ :: _, [_], _, _, hg, _, _, _ => by simp [goodTable] at hg
   | _ :: _ :: _ :: _, [_, _], _, _, hg, _, _, _ => by simp [goodTable] at hg
 
+/-- in a good table the first knot is at most the last one -/
+theorem head_le_lastKnot : ∀ (xs ys : List ℝ), goodTable xs ys → 1 ≤ xs.length → xs.head! ≤ lastKnot xs
+  | [x0], _, _, _ => by simp [lastKnot]
+  | x0 :: x1 :: xs, y0 :: y1 :: ys, hg, _ => by
+      simp only [goodTable] at hg
+      have ih := head_le_lastKnot (x1 :: xs) (y1 :: ys) hg.2.2 (by simp)
+      simp only [List.head!_cons, lastKnot] at ih ⊢
+      linarith [hg.1]
+  | [], _, _, hl => by simp at hl
+  | _ :: _ :: _, [], hg, _ => by simp [goodTable] at hg
+  | _ :: _ :: _, [_], hg, _ => by simp [goodTable] at hg
+
+/-- at and beyond the last knot the interpolant IS the last segment's line (linear extrapolation) -/
+theorem interp_eq_lastBound : ∀ (xs ys : List ℝ) (x : ℝ), goodTable xs ys → 2 ≤ xs.length →
+    lastKnot xs ≤ x → interpExtrap xs ys x = lastBound xs ys x
+  | [x0, x1], [y0, y1], x, _, _, hx => by
+      simp only [lastKnot] at hx
+      have : ¬ x < x1 := not_lt.mpr hx
+      simp [interpExtrap, lastBound, this]
+  | x0 :: x1 :: x2 :: xs, y0 :: y1 :: y2 :: ys, x, hg, _, hx => by
+      simp only [goodTable] at hg
+      have hg' : goodTable (x1 :: x2 :: xs) (y1 :: y2 :: ys) := by simpa [goodTable] using hg.2.2
+      have hx' : lastKnot (x1 :: x2 :: xs) ≤ x := by simpa [lastKnot] using hx
+      have h1 : x1 ≤ lastKnot (x1 :: x2 :: xs) := by
+        simpa using head_le_lastKnot (x1 :: x2 :: xs) (y1 :: y2 :: ys) hg' (by simp)
+      have hlt : ¬ x < x1 := not_lt.mpr (le_trans h1 hx')
+      have : interpExtrap (x0 :: x1 :: x2 :: xs) (y0 :: y1 :: y2 :: ys) x
+          = interpExtrap (x1 :: x2 :: xs) (y1 :: y2 :: ys) x := by
+        simp [interpExtrap, hlt]
+      rw [this]
+      simpa [lastBound] using interp_eq_lastBound (x1 :: x2 :: xs) (y1 :: y2 :: ys) x hg' (by simp) hx'
+  | [], _, _, _, hl, _ => by simp at hl
+  | [_], _, _, _, hl, _ => by simp at hl
+  | [_, _], [], _, hg, _, _ => by simp [goodTable] at hg
+  | [_, _], [_], _, hg, _, _ => by simp [goodTable] at hg
+  | [_, _], _ :: _ :: _ :: _, _, hg, _, _ => by simp [goodTable] at hg
+  | _ :: _ :: _ :: _, [], _, hg, _, _ => by simp [goodTable] at hg
+  | _ :: _ :: _ :: _, [_], _, hg, _, _ => by simp [goodTable] at hg
+  | _ :: _ :: _ :: _, [_, _], _, hg, _, _ => by simp [goodTable] at hg
+
 end IceTable
